@@ -428,7 +428,8 @@ func runProperty(p *Property, tier, repo, verif string, seed int) int {
 		if fixtureBroken > 0 {
 			fmt.Printf("BROKEN-CHECK property=%s %d sensitivity fixture(s) did not fire\n", p.ID, fixtureBroken)
 		}
-		// fall through: a violation found is still reported, but exit code is 2
+		// fall through: a violation found is still reported (exit 1, with the
+		// BROKEN-CHECK lines above it); without one the run exits 2
 	}
 	if len(viol) > 0 {
 		vdir := filepath.Join(evDir, "violations")
